@@ -81,6 +81,7 @@ func (r *Run) Deep() *Deep {
 		}
 	}
 	r.deep = d
+	r.P.deepShared = d
 	return d
 }
 
